@@ -343,7 +343,13 @@ func runCycle(h History, s *Sorter, ci int, outp *Outcome, fail func(string, err
 				sort.Ints(missing)
 				return out, errf("lost-values", "cycle %d (%d pushed, chunk %d, spilled=%v): io.EOF after %d values; missing keys %v", ci, len(c.Keys), h.Chunk, spilled, pulled, clip(missing)), false
 			}
-			// the Pull that reported io.EOF delivered nothing and so moved nothing
+			// the Pull that reported io.EOF delivered nothing and so moved nothing; the cycle still
+			// holds what was pushed until it is cleared
+			if !h.AutoClear && !s.M.AutoClean {
+				if got := s.M.Len(); got != int64(len(c.Keys)) {
+					return out, errf("len", "cycle %d: Len() = %d after the Pull that returned io.EOF, %d values were pushed", ci, got, len(c.Keys)), false
+				}
+			}
 			if !h.AutoClear {
 				if got := s.M.Pos(); got != int64(pulled) {
 					return out, errf("pos", "cycle %d: Pos() = %d after %d pulls and the Pull that returned io.EOF", ci, got, pulled), false
